@@ -71,7 +71,7 @@ def main():
     rf = V / "seeded" / "results.txt"
     if rf.exists():
         for ln in rf.read_text().splitlines():
-            m = re.match(r"(C\d+-\w) tier=(\w+) baseline_demo=\[(.*?)\] mutant_demo=\[(.*?)\] preexisting_failed_targets=(\d+) check_rc=(\d+) violation_lines=(\d+) secs=(\d+)(.*)", ln)
+            m = re.match(r"(C\d+-\w+) tier=(\w+) baseline_demo=\[(.*?)\] mutant_demo=\[(.*?)\] preexisting_failed_targets=(\d+) check_rc=(\d+) violation_lines=(\d+) secs=(\d+)(.*)", ln)
             if m:
                 res.setdefault(m.group(1), []).append({"tier": m.group(2), "demo_on_unmodified": m.group(3), "demo_with_change": m.group(4), "preexisting_test_targets_failing": int(m.group(5)), "check_exit": int(m.group(6)), "violation_lines": int(m.group(7)), "seconds": int(m.group(8)), "note": m.group(9).strip()})
     for d in sorted((V / "seeded").glob("C*-*")):
